@@ -418,7 +418,7 @@ def _explore(args):
 
 def run_part(report, tier):
     bound = 1 if tier == "quick" else 2
-    deadline = time.time() + (120 if tier == "quick" else 2400)
+    deadline = time.time() + (400 if tier == "quick" else 2400)
     jobs = []
     for kind in ("serial", "tcp"):
         for i, (ans, acts) in enumerate(scripts(kind, tier)):
